@@ -407,6 +407,31 @@ func (c *FnCtx) loopHead(b *ssa.BasicBlock, li *loopInfo, ins []loopEdge) {
 		c.setVal(phi, Val{T: n, Ty: phi.Type()})
 		c.assume(c.typeFact(n, phi.Type()))
 	}
+	// range-over-slice loops: the hidden index satisfies -1 <= idx and idx+1 <= len (trivially inductive:
+	// it starts at -1 and advances by one only after idx+1 < len was tested)
+	for _, in := range b.Instrs {
+		phi, ok := in.(*ssa.Phi)
+		if !ok {
+			break
+		}
+		if phi.Comment != "rangeindex" {
+			continue
+		}
+		pv := c.vals[phi].T
+		c.assume(c.idxLe(c.mode.idxLit(-1), pv))
+		for _, in2 := range b.Instrs {
+			if add, ok := in2.(*ssa.BinOp); ok && add.X == phi && add.Op == token.ADD {
+				for _, in3 := range b.Instrs {
+					if lt, ok := in3.(*ssa.BinOp); ok && lt.X == add && lt.Op == token.LSS {
+						if _, known := c.vals[lt.Y]; known || isConst(lt.Y) {
+							c.assume(c.idxLe(c.idxAdd(pv, c.mode.idxLit(1)), c.val(lt.Y).T))
+							c.used["range loops: hidden index idx satisfies -1 <= idx and idx+1 <= len (inductive by construction)"] = true
+						}
+					}
+				}
+			}
+		}
+	}
 	c.heap = c.heap.clone()
 	var ws []string
 	for w := range li.writes {
@@ -587,6 +612,19 @@ func (c *FnCtx) resolveName(name string, b *ssa.BasicBlock, idx int, atLoopHead 
 			}
 		}
 	}
+	// address-taken variables (captured by closures, or whose address escapes) live in an Alloc cell:
+	// the name denotes the cell's CURRENT content, not some earlier loaded value
+	var cellAlloc *ssa.Alloc
+	for _, blk0 := range c.fn.Blocks {
+		for _, in := range blk0.Instrs {
+			if a, ok := in.(*ssa.Alloc); ok && a.Comment == name && (blk0.Dominates(b)) && (blk0 != b || instrIndex(blk0, a) < idx || atLoopHead) {
+				cellAlloc = a
+			}
+		}
+	}
+	if cellAlloc != nil {
+		return cellAlloc, true, true
+	}
 	// walk up the dominator tree
 	blk := b
 	end := idx
@@ -658,4 +696,15 @@ func entrySuffix(ins []loopEdge, p *ssa.BasicBlock) string {
 		}
 	}
 	return ""
+}
+
+func isConst(v ssa.Value) bool { _, ok := v.(*ssa.Const); return ok }
+
+func instrIndex(b *ssa.BasicBlock, in ssa.Instruction) int {
+	for i, x := range b.Instrs {
+		if x == in {
+			return i
+		}
+	}
+	return -1
 }
